@@ -684,6 +684,9 @@ func CheckBuiltinArgs(r *Run, o *Obs, rootScope, rootCtx any) (fs []Finding, che
 // integration creates the request's scope with.
 var C18Web func(c *eng.Ctx, next func() (int, bool))
 
+// C13Web (package web): two providers behind nested scope middlewares, judged for C13.
+var C13Web func(c *eng.Ctx, next func() (int, bool))
+
 // C18Concurrent / C03Concurrent / C15Concurrent are installed by package conc: the same
 // oracles over workloads in which one constructor runs concurrently in several scopes.
 var (
